@@ -122,6 +122,12 @@ func (p *Program) contractKeys(c *Contract) map[string]bool {
 	}
 	for _, m := range c.Modifies {
 		text := strings.TrimSpace(m)
+		if ks, ok := p.wildcardKeys(c, text, sc); ok {
+			for _, k := range ks {
+				out[k] = true
+			}
+			continue
+		}
 		mapContent := strings.HasSuffix(text, "[*]")
 		text = strings.TrimSuffix(text, "[*]")
 		cl := p.designatorClause(c, text)
@@ -339,6 +345,178 @@ func (p *Program) scanWrites(fi *FuncInfo, body ast.Node, mi *modInfo) {
 
 func definedInBody(info *types.Info, o *types.Var, body ast.Node) bool {
 	return o.Pos() >= body.Pos() && o.Pos() <= body.End()
+}
+
+// loopWrites: direct writes of a loop body, by heap key, with the base expression holding the written
+// object (x in x.f = v, m in m[k] = v / delete(m, k)); nil base = not a simple direct write.
+type loopWrite struct {
+	base ast.Expr
+}
+
+func (e *Exec) directWrites(body ast.Node, extra []ast.Node) map[string][]loopWrite {
+	out := map[string][]loopWrite{}
+	info := e.fr().info
+	add := func(k string, base ast.Expr) { out[k] = append(out[k], loopWrite{base}) }
+	var lhs func(x ast.Expr)
+	lhs = func(x ast.Expr) {
+		switch v := x.(type) {
+		case *ast.ParenExpr:
+			lhs(v.X)
+		case *ast.SelectorExpr:
+			sel := info.Selections[v]
+			if sel == nil || sel.Kind() != types.FieldVal {
+				return
+			}
+			bt := info.Types[v.X].Type
+			if bt == nil {
+				return
+			}
+			if isPointer(bt) {
+				elem := bt.Underlying().(*types.Pointer).Elem()
+				su := structOf(elem)
+				idx := sel.Index()
+				if su != nil && idx[0] < su.NumFields() {
+					var base ast.Expr = v.X
+					if len(idx) > 1 {
+						base = nil
+					}
+					add(fieldKeyName(elem, su.Field(idx[0])), base)
+				}
+				return
+			}
+			lhs(v.X)
+		case *ast.IndexExpr:
+			bt := info.Types[v.X].Type
+			if bt == nil {
+				return
+			}
+			switch u := bt.Underlying().(type) {
+			case *types.Map:
+				for _, k := range mapKeyNames(u) {
+					add(k, v.X)
+				}
+			case *types.Slice, *types.Array:
+				lhs(v.X)
+			}
+		case *ast.StarExpr:
+			if pt, ok := info.Types[v.X].Type.Underlying().(*types.Pointer); ok {
+				if su := structOf(pt.Elem()); su != nil && !isPointer(pt.Elem()) {
+					for i := 0; i < su.NumFields(); i++ {
+						add(fieldKeyName(pt.Elem(), su.Field(i)), v.X)
+					}
+				} else {
+					add(ptrKeyName(pt.Elem()), v.X)
+				}
+			}
+		}
+	}
+	scan := func(n ast.Node) {
+		ast.Inspect(n, func(x ast.Node) bool {
+			switch s := x.(type) {
+			case *ast.AssignStmt:
+				for _, l := range s.Lhs {
+					lhs(l)
+				}
+			case *ast.IncDecStmt:
+				lhs(s.X)
+			case *ast.CallExpr:
+				if id, ok := s.Fun.(*ast.Ident); ok {
+					if _, isB := info.Uses[id].(*types.Builtin); isB && id.Name == "delete" && len(s.Args) > 0 {
+						if mt, ok := info.Types[s.Args[0]].Type.Underlying().(*types.Map); ok {
+							for _, k := range mapKeyNames(mt) {
+								add(k, s.Args[0])
+							}
+						}
+					}
+				}
+			}
+			return true
+		})
+	}
+	scan(body)
+	for _, x := range extra {
+		if x != nil {
+			scan(x)
+		}
+	}
+	return out
+}
+
+// calleeKeysOf returns the heap keys written by the calls made in a loop body (callee write-sets only).
+func (e *Exec) calleeKeysOf(body ast.Node, extra []ast.Node) map[string]bool {
+	mi := &modInfo{direct: map[string]bool{}, callees: map[*types.Func]bool{}}
+	fi := e.fr().fi
+	e.P.scanWrites(fi, body, mi)
+	for _, x := range extra {
+		if x != nil {
+			e.P.scanWrites(fi, x, mi)
+		}
+	}
+	out := map[string]bool{}
+	if mi.direct["*"] {
+		out["*"] = true
+	}
+	ast.Inspect(body, func(n ast.Node) bool {
+		if c, ok := n.(*ast.CallExpr); ok {
+			if id, ok := c.Fun.(*ast.Ident); ok {
+				if lit := e.closureLit(id); lit != nil {
+					m2 := &modInfo{direct: map[string]bool{}, callees: map[*types.Func]bool{}}
+					e.P.scanWrites(fi, lit.Body, m2)
+					for k := range m2.direct {
+						out[k] = true
+					}
+					for cal := range m2.callees {
+						mi.callees[cal] = true
+					}
+				}
+			}
+		}
+		return true
+	})
+	for cal := range mi.callees {
+		for k := range e.P.ModSet(cal) {
+			out[k] = true
+		}
+	}
+	return out
+}
+
+// stableExpr: the value of x cannot change during the loop (only variables not assigned in the loop and
+// fields whose heap key the loop does not write).
+func (e *Exec) stableExpr(x ast.Expr, assigned map[types.Object]bool, modKeys map[string]bool) bool {
+	info := e.fr().info
+	switch v := x.(type) {
+	case *ast.ParenExpr:
+		return e.stableExpr(v.X, assigned, modKeys)
+	case *ast.Ident:
+		o := info.Uses[v]
+		if o == nil {
+			o = info.Defs[v]
+		}
+		if o == nil || assigned[o] || e.boxed[o] {
+			return false
+		}
+		_, isVar := o.(*types.Var)
+		return isVar
+	case *ast.SelectorExpr:
+		sel := info.Selections[v]
+		if sel == nil || sel.Kind() != types.FieldVal || len(sel.Index()) != 1 {
+			return false
+		}
+		bt := info.Types[v.X].Type
+		if bt == nil {
+			return false
+		}
+		if isPointer(bt) {
+			elem := bt.Underlying().(*types.Pointer).Elem()
+			k := fieldKeyName(elem, structOf(elem).Field(sel.Index()[0]))
+			if modKeys[k] || modKeys["*"] {
+				return false
+			}
+		}
+		return e.stableExpr(v.X, assigned, modKeys)
+	}
+	return false
 }
 
 // modKeysOf returns the heap keys a loop body (plus extra nodes) may write.
